@@ -74,6 +74,11 @@ def gen_program(rng, force=None):
     if b2 == b:
         b2 = b + 1
     scr = 0 if rng.chance(3, 4) else rng.range(-(1 << 20), 1 << 20)
+    # scratch arena: ample, or around the three thresholds 8N (rotate), 16N (shift), 24N (normalize)
+    sb = 1 << 16
+    if fam == "scratch" or rng.chance(1, 12):
+        sb = rng.choice([0, 1, 8 * n - 1, 8 * n, 8 * n + 1, 16 * n - 64, 16 * n - 63, 16 * n, 24 * n - 64, 24 * n - 1, 24 * n,
+                         rng.range(0, 24 * n + 64)])
     R = rng.choice([0, 1, 1, 2, 2, 3])
     cls = rng.choice(["digits", "digits", "digits", "extreme", "wide", "sparse", "zero"])
     if big and cls == "wide":
@@ -96,7 +101,7 @@ def gen_program(rng, force=None):
         vcls = cls if rng.chance(4, 5) else rng.choice(["digits", "zero", "extreme"])
         decls.append({"kind": "ct", "rank": rank, "size": size, "b": bb,
                       "vals": gen_values(rng, (rank + 1) * size * n, bb, vcls), "cls": vcls})
-    if fam == "ggsw":
+    if fam in ("ggsw", "scratch"):
         for i in range(rng.range(2, 3)):
             rank = rng.choice([R, R, rng.range(0, 2)])
             size = rng.range(2, 4)
@@ -141,13 +146,15 @@ def gen_program(rng, force=None):
         "norm": ["normalize", "normalize_assign", "normalize", "add_assign"],
         "rshdefect": ["rsh", "rsh", "add_assign", "rsh"],
         "radixmix": ["negate", "copy", "rotate", "mul_xp_minus_one", "normalize"],
+        "scratch": ["rotate_assign", "mul_xp_minus_one_assign", "rsh", "lsh_assign", "lsh", "lsh_add", "lsh_sub", "normalize",
+                    "normalize_assign", "add", "negate_assign", "rotate"],
     }
     allops = sorted(set(sum(groups.values(), [])))
     ops = []
     strict = fam != "invalid"
     nops = rng.range(1, 8)
     for _ in range(nops):
-        if fam == "ggsw" and ggs and rng.chance(2, 3):
+        if fam in ("ggsw", "scratch") and ggs and rng.chance(2, 3 if fam == "ggsw" else 6):
             k = rot_amount(rng, n)
             if rng.chance(1, 2) and len(ggs) >= 2:
                 r = rng.choice(ggs)
@@ -199,13 +206,13 @@ def gen_program(rng, force=None):
     ops = [op for op in ops if None not in op]
     if not ops:
         ops = [("negate_assign", cts[0])]
-    req = request_line(n, scr, decls, ops)
-    meta = {"family": fam, "n": n, "b": b, "big": big, "scr0": scr == 0, "cls": cls, "R": R, "nops": len(ops)}
-    return {"req": req, "meta": meta, "n": n, "scr": scr, "decls": decls, "ops": ops}
+    req = request_line(n, scr, decls, ops, sb)
+    meta = {"family": fam, "n": n, "b": b, "big": big, "scr0": scr == 0, "cls": cls, "R": R, "nops": len(ops), "sb": sb}
+    return {"req": req, "meta": meta, "n": n, "scr": scr, "sb": sb, "decls": decls, "ops": ops}
 
 
-def request_line(n, scr, decls, ops):
-    parts = [f"n={n} scr={scr}"]
+def request_line(n, scr, decls, ops, sb=1 << 16):
+    parts = [f"n={n} scr={scr} sb={sb}"]
     for d in decls:
         v = ",".join(str(x) for x in d["vals"]) if any(d["vals"]) else "z"
         if d["kind"] == "ct":
@@ -618,9 +625,17 @@ def check_ggsw_step(op, pool, new, s, n):
     return ("ok", "", None)
 
 
-def expected_outcome(op, pool):
-    """'ok' | 'panic' | 'err' from the shapes alone"""
+SCRATCH_NEED = {"rotate_assign": 8, "mul_xp_minus_one_assign": 8, "ggsw_rotate_assign": 8, "rsh": 16, "lsh_assign": 16,
+                "lsh": 16, "lsh_add": 16, "lsh_sub": 16, "normalize": 24, "normalize_assign": 24}
+
+
+def expected_outcome(op, pool, n=0, sb=1 << 16):
+    """'ok' | 'panic:assert' | 'panic:scratch' | 'err' from the shapes and the arena size alone: the arena holds
+    sb rounded up to a multiple of 64 bytes; rotate needs 8N, the shifts 16N, normalisation 24N; the shifts
+    and the in-place forms assert it first, glwe_normalize after its shape assertions"""
     name = op[0]
+    cap = (sb + 63) // 64 * 64
+    short = name in SCRATCH_NEED and cap < SCRATCH_NEED[name] * n
     try:
         if name in ("add", "sub"):
             idx = op[1:4]
@@ -640,7 +655,11 @@ def expected_outcome(op, pool):
         return "err"
     if any(o["kind"] != want for o in objs):
         return "err"
-    return "ok" if admissible(name, *objs) else "panic"
+    if short and name != "normalize":
+        return "panic:scratch"
+    if not admissible(name, *objs):
+        return "panic:assert"
+    return "panic:scratch" if short else "ok"
 
 
 def oracle_program(prog, answer, s):
@@ -651,7 +670,7 @@ def oracle_program(prog, answer, s):
     res = []
     for i, op in enumerate(prog["ops"]):
         tok = toks[i] if i < len(toks) else "missing"
-        want = expected_outcome(op, pool)
+        want = expected_outcome(op, pool, n, prog.get("sb", 1 << 16))
         if tok.startswith("panic") or tok.startswith("err") or tok == "missing":
             name = op[0]
             if want == "ok":
@@ -661,7 +680,7 @@ def oracle_program(prog, answer, s):
                     if -(-op[1] // dr["b"]) > dr["size"]:
                         key = "glwe_rsh:steps>size-panic"
                 res.append((i, "fail", f"{name} on an admissible shape combination answered {tok}", key))
-            elif (want == "panic") != tok.startswith("panic"):
+            elif want != tok and not (want == "err" and tok.startswith("err")):
                 res.append((i, "fail", f"{op[0]}: expected {want}, got {tok}", f"glwe_{op[0]}:outcome"))
             else:
                 res.append((i, "ok", tok, None))
@@ -745,7 +764,7 @@ def run(ctx):
         "harness/src/cmd_ops.rs, lean/Poulpy/Driver/Ops.lean (parsing / printing), vlib/c02.py (generator, comparison, Python oracle)",
     ]
     ctx.assumptions += [
-        "scratch.available() >= tmp_bytes assertions are not modelled (the harness supplies 64 KiB of scratch); scratch *content* is an explicit input (pattern scr) that no operation may depend on",
+        "the scratch arena is ScratchOwned::alloc(sb) (sb in the request; rounded up to 64 bytes by alloc_aligned); its *content* is an explicit input (pattern scr) that no operation may depend on",
         "all pool entries have the module's ring degree (the n-mismatch assertions are not exercised)",
         "glwe_normalize (cross radix) and glwe_lsh_assign theorems take the value specification of the per-column kernel as an explicit hypothesis (names *_modulo_norm); glwe_rsh / glwe_normalize_assign use the C08 value theorems; glwe_lsh / lsh_add / lsh_sub have no theorem (correspondence + oracle only)",
     ]
@@ -763,7 +782,7 @@ def run(ctx):
         progs = [rp["program"]]
     else:
         n_prog = 2000 if quick else 20000
-        fams = [None] * 6 + ["linear", "rotate", "shift", "norm", "ggsw", "rshdefect", "radixmix", "invalid"]
+        fams = [None] * 6 + ["linear", "rotate", "shift", "norm", "ggsw", "rshdefect", "radixmix", "invalid", "scratch"]
         progs = [gen_program(rng, force=rng.choice(fams)) for _ in range(n_prog)]
 
     hist = {"family": {}, "outcome": {}, "op": {}, "oracle": {}}
